@@ -458,6 +458,14 @@ Definition e_fuel : str := [104;97;110;103].                                    
 Definition enc (r : mres) : val :=
   match r with MOut s => VS s | MIndex => VErr e_index | MAttr => VErr e_attr | MFuel => VErr e_fuel end.
 
+(* Outputs are compared through (length, polynomial hash mod 2^31-1): embedding every output
+   string in the generated cases file doubles Coq's parsing time.  The harness computes the
+   same digest of the implementation's output. *)
+Definition hash (s : str) : N := fold_left (fun h c => (h * 257 + c + 1) mod 2147483647) s 7.
+Definition digest (s : str) : val := VL [VZ (Z.of_nat (length s)); VZ (Z.of_N (hash s))].
+Definition enc_d (r : mres) : val :=
+  match r with MOut s => digest s | _ => enc r end.
+
 (* stream input: ((data, vars, funcs), (vars_is_whitelist, funcs_is_whitelist)) *)
 Definition run_filter (i : (str * list str * list str) * (bool * bool)) : val :=
-  let '((d, v, f), (vw, fw)) := i in enc (main_run d v f vw fw).
+  let '((d, v, f), (vw, fw)) := i in enc_d (main_run d v f vw fw).
